@@ -73,32 +73,88 @@ def render(abstract, per_class, rnd):
     return out
 
 
-def to_trace(obs_rows):
+FAILING_P = ("parseError", "genError", "regoError", "reportError")
+FAILING_D = ("notJson", "ldReject", "evalError")
+
+
+def to_trace(obs_rows, scope):
     """observations -> (trace lines, id->row).  Every line carries `nx`, the index of the line
-    that follows its case (used by TraceGiveUp)."""
+    that follows its case (used by TraceGiveUp).
+
+    `scope` projects the observation onto what the property of the calling check talks about, so that a check
+    only ever alarms about its own property:
+      C11  events, closing and milestones; input classes are left to TLC to infer (the events must be explainable by
+           SOME profile / data class with the observed outcome), reports are not compared
+      C04  the outcome kind for the input class the text was built to be in; no events (calls are presented without a
+           channel, the stage steps are silent), reports are not compared
+      C17  the outcome kind only (report or error, nothing else); classes are inferred except that a node-less
+           document under a profile that compiles keeps its class, for which the spec demands a conforming report
+      C09 / C10  every call must return what the FIRST observation of the same (profile, document, configuration) key
+           returned - the fresh / solo reference the harness puts first: classes are relabelled from that reference, the
+           report hash (or the failure kind) is bound per key in the trace spec; no events"""
     lines = []
     byid = {}
+    relative = scope in ("C09", "C10")
     for o in obs_rows:
         if o.get("skipped"):
             continue
         byid[o["id"]] = o
         case_lines = []
         calls = o["calls"]
+
+        def keyof(c):
+            if c.get("dkey"):
+                return c.get("pkey", "") + "|" + c["dkey"]
+            return (c.get("pkey", "") + "|@compile") if c["entry"] == "compile" else ""
+
+        first = {}
+        for c in calls:
+            first.setdefault(keyof(c), c["kind"])
         for i, c in enumerate(calls):
             dclass = c.get("dclass") or o["dclass"]
-            case_lines.append({"e": "call", "entry": c["entry"], "hasChan": c["hasChan"], "pclass": c.get("pclass") or o["pclass"],
+            pclass = c.get("pclass") or o["pclass"]
+            kind = c["kind"]
+            key, sha, conf = "", "", "true"
+            has_chan = c["hasChan"]
+            if scope == "C11":
+                pclass, dclass = "unknown", "unknown"
+            elif scope == "C04":
+                has_chan = False
+            elif scope == "C17":
+                has_chan = False
+                if not (pclass == "ok" and dclass == "okNoNodes"):
+                    pclass, dclass = "unknown", "unknown"
+                else:
+                    conf = "na" if c.get("conforms") is None else ("true" if c["conforms"] else "false")
+            elif relative:
+                has_chan = False
+                key = keyof(c)
+                ref = first.get(key, kind)
+                if c["entry"] == "compile":
+                    if ref == "handle":
+                        pclass = "ok"
+                    elif pclass not in FAILING_P:
+                        pclass = "regoError"
+                elif ref == "report":
+                    pclass, dclass = "ok", "ok"
+                elif pclass not in FAILING_P and dclass not in FAILING_D:
+                    dclass = "notJson"
+                sha = c.get("sha", "") if kind == "report" else "kind:" + kind
+                if kind not in ("report", "handle"):
+                    kind = "error"      # a panic or a timeout that the reference shows as well is not this property's business
+            else:
+                raise Infra("unknown trace scope %s" % scope)
+            case_lines.append({"e": "call", "entry": c["entry"], "hasChan": has_chan, "pclass": pclass,
                                "dclass": dclass if c["entry"] != "compile" else "unknown"})
-            for t in c["events"]:
-                case_lines.append({"e": "ev", "t": t})
-            conf = c.get("conforms")
-            key = (c.get("pkey", "") + "|" + c["dkey"]) if c.get("dkey") else ""
-            case_lines.append({"e": "ret", "kind": c["kind"], "closed": bool(c["closed"]),
-                               "conforms": "na" if conf is None else ("true" if conf else "false"),
-                               "key": key, "sha": c.get("sha", "")})
-        for vals in (o.get("genvars") or []):
-            case_lines.append({"e": "genvars", "vals": vals})
+            if scope == "C11":
+                for t in c["events"]:
+                    case_lines.append({"e": "ev", "t": t})
+            case_lines.append({"e": "ret", "kind": kind, "closed": bool(c["closed"]), "conforms": conf, "key": key, "sha": sha})
+        if scope == "C10":
+            for vals in (o.get("genvars") or []):
+                case_lines.append({"e": "genvars", "vals": vals})
         ms = o.get("milestones") or []
-        has_chan = any(c["hasChan"] for c in calls)
+        has_chan = scope == "C11" and any(c["hasChan"] for c in calls)
         case_lines.append({"e": "end", "id": o["id"], "hasMs": bool(has_chan and any(c["events"] for c in calls)),
                            "ms": [m["op"] for m in ms],
                            "msok": all(m["durNonNeg"] and m["startOK"] for m in ms)
@@ -172,7 +228,7 @@ def replay(pid, path):
     case = dict(case)
     case["id"] = "replay-0"
     obs = vlib.run_harness("proto", [case], "replay_" + pid, shards=1)
-    lines, byid = to_trace(obs)
+    lines, byid = to_trace(obs, pid)
     rejected, _ = validate_trace("replay_" + pid, lines)
     print(json.dumps(obs[0], indent=1)[:3000])
     if rejected:
